@@ -77,7 +77,7 @@ func init() {
 			{Name: "read time-out flag not reset when the timer is stopped (seeded change C19-12)", File: "execution/subscription/handler.go", Rule: "C19-R5", Key: "timeout-state-pair:readTimeOutCancel",
 				Old: "\t\t\t\tu.readTimeOutCancel()\n\t\t\t\tu.isReadTimeOutTimerRunning = false\n", New: "\t\t\t\tu.readTimeOutCancel()\n"},
 			{Name: "subscribe no longer requires connection_init", File: c19TwGo, Rule: "C19-R1", Key: "start-requires-init",
-				Old: "\tif !p.connectionInitialized {\n\t\tp.closeConnectionWithReason(\n\t\t\tNewCloseReason(4401, \"Unauthorized\"),\n\t\t)\n\t\treturn nil\n\t}\n\n\tsubscribePayload, err", New: "\tsubscribePayload, err"},
+				Old: "\tif !p.connectionInitialized {\n\t\tp.closeConnectionWithReason(\n\t\t\tNewCloseReason(4401, \"Unauthorized\"),\n\t\t)\n\t\treturn nil\n\t}\n\n\tif message.Id == \"\" {", New: "\tif message.Id == \"\" {"},
 			{Name: "subscribe before init closes with 4400 instead of 4401", File: c19TwGo, Rule: "C19-R1", Key: "subscribe-before-init-closes-4401",
 				Old: "\t\t\tNewCloseReason(4401, \"Unauthorized\"),\n", New: "\t\t\tNewCloseReason(4400, \"Unauthorized\"),\n"},
 			{Name: "second init closes but is then processed and acknowledged again", File: c19TwGo, Rule: "C19-R1", Key: "ack-only-on-first-successful-init",
